@@ -314,6 +314,24 @@ impl Monitor for C06 {
             self.case(ctx, rng, seqs.iter().map(|s| s.to_vec()).collect(), pats.iter().map(|s| s.to_vec()).collect(), k);
             return;
         }
+        if !ctx.tiny() && rng.chance(1, 60) {
+            // a collection of 118-132 short sequences: 236-264 sentinels, i.e. around the point where symbol ranks plus
+            // sentinel ranks stop fitting into one byte during suffix array construction
+            let letters: &[u8] = *rng.pick(&[&b"ACGT"[..], b"ACGTN", b"ACGTNacgtn"]);
+            let nseq = rng.range(118, 132);
+            let seqs: Vec<Vec<u8>> = (0..nseq).map(|_| random_seq(rng, letters, rng.clone().range(1, 4))).collect();
+            let mut pats = vec![];
+            for _ in 0..3 {
+                let a = rng.pick(&seqs).clone();
+                let mut p = a.clone();
+                let other = rng.pick(&seqs[..]).clone();
+                p.extend_from_slice(&other);
+                pats.push(if rng.chance(1, 2) { a } else { p });
+            }
+            ctx.count("collections_of_118_to_132_sequences", 1);
+            let k = *rng.pick(&[1u32, 3, 65]);
+            return self.case(ctx, rng, seqs, pats, k);
+        }
         let letters: &[u8] = match rng.below(4) {
             0 => b"ACGTNacgtn",
             1 => b"ACGTN",
